@@ -53,6 +53,12 @@ def _flatten_targets(t):
         yield t
 
 
+IMMUTABLE_EXTERNAL_CTORS = {"compile", "getLogger", "Lock", "RLock", "abspath", "join", "dirname", "MappingProxyType", "maketrans", "object", "Path", "PurePath", "frozenset", "tuple",
+                            "TypeVar", "namedtuple", "Fraction", "Decimal", "PurePosixPath", "PureWindowsPath", "Enum", "Pattern", "str", "int", "float", "bool", "bytes", "realpath", "normpath", "basename", "getenv", "local"}
+STATEFUL_EXTERNAL_FACTORIES = {"open", "iter", "count", "cycle", "bytearray", "array", "reader", "writer", "compile_parser", "make_parser", "mkstemp", "mkdtemp", "socket"}
+READ_ONLY_METHODS = {"getvalue", "get", "items", "keys", "values", "copy", "index", "count", "__contains__", "__len__"}
+
+
 def module_mutables(repo: Repo):
     """Module-level names bound to (syntactically) mutable objects:
     (module, name, kind, stmt)."""
@@ -82,6 +88,8 @@ def module_mutables(repo: Repo):
                             kind = f"instance:{r[1].name}"
                         elif r and r[0] == "func":
                             kind = f"result:{r[1].name}"
+                        elif cn not in IMMUTABLE_EXTERNAL_CTORS and (cn[:1].isupper() or cn in STATEFUL_EXTERNAL_FACTORIES):
+                            kind = f"external:{cn}"  # an object of a library class (StringIO, a parser, a buffer ...): stateful until shown otherwise
                 if kind:
                     out.append((m, name, kind, st))
     return out
